@@ -444,6 +444,25 @@ fn adopt_type_extensions(
     }
 }
 
+/// An extension that came before the definition of a type of a different kind
+fn orphan_extension_kind_mismatch(
+    errors: &mut DiagnosticList,
+    extension: &ast::Definition,
+    definition_name: &Name,
+    describe_def: &'static str,
+) {
+    let name = extension.name().unwrap();
+    errors.push(
+        name.location(),
+        BuildError::TypeExtensionKindMismatch {
+            name: name.clone(),
+            describe_ext: extension.describe(),
+            def_location: definition_name.location(),
+            describe_def,
+        },
+    )
+}
+
 impl SchemaDefinition {
     fn from_ast(
         errors: &mut DiagnosticList,
@@ -528,6 +547,8 @@ impl ScalarType {
         for def in &extensions {
             if let ast::Definition::ScalarTypeExtension(ext) = def {
                 ty.extend_ast(errors, ext)
+            } else {
+                orphan_extension_kind_mismatch(errors, def, &definition.name, "a scalar type")
             }
         }
         definition.same_location(ty)
@@ -596,6 +617,8 @@ impl ObjectType {
         for def in &extensions {
             if let ast::Definition::ObjectTypeExtension(ext) = def {
                 ty.extend_ast(errors, ext)
+            } else {
+                orphan_extension_kind_mismatch(errors, def, &definition.name, "an object type")
             }
         }
         definition.same_location(ty)
@@ -696,6 +719,8 @@ impl InterfaceType {
         for def in &extensions {
             if let ast::Definition::InterfaceTypeExtension(ext) = def {
                 ty.extend_ast(errors, ext)
+            } else {
+                orphan_extension_kind_mismatch(errors, def, &definition.name, "an interface type")
             }
         }
         definition.same_location(ty)
@@ -781,6 +806,8 @@ impl UnionType {
         for def in &extensions {
             if let ast::Definition::UnionTypeExtension(ext) = def {
                 ty.extend_ast(errors, ext)
+            } else {
+                orphan_extension_kind_mismatch(errors, def, &definition.name, "a union type")
             }
         }
         definition.same_location(ty)
@@ -852,6 +879,8 @@ impl EnumType {
         for def in &extensions {
             if let ast::Definition::EnumTypeExtension(ext) = def {
                 ty.extend_ast(errors, ext)
+            } else {
+                orphan_extension_kind_mismatch(errors, def, &definition.name, "an enum type")
             }
         }
         definition.same_location(ty)
@@ -921,6 +950,8 @@ impl InputObjectType {
         for def in &extensions {
             if let ast::Definition::InputObjectTypeExtension(ext) = def {
                 ty.extend_ast(errors, ext)
+            } else {
+                orphan_extension_kind_mismatch(errors, def, &definition.name, "an input object type")
             }
         }
         definition.same_location(ty)
